@@ -1338,7 +1338,8 @@ class ExtendNode(ViewRepresentation):
             return False
         if not self.reverse == other.reverse:
             return False
-        if set(self.ops.keys()) != set(other.ops.keys()):
+        # the order of the assignments is the order of the new columns and of the SELECT list
+        if list(self.ops.keys()) != list(other.ops.keys()):
             return False
         for k in self.ops.keys():
             if not self.ops[k].is_equal(other.ops[k]):
@@ -1574,7 +1575,8 @@ class ProjectNode(ViewRepresentation):
             return False
         if not self.group_by == other.group_by:
             return False
-        if set(self.ops.keys()) != set(other.ops.keys()):
+        # the order of the assignments is the order of the new columns and of the SELECT list
+        if list(self.ops.keys()) != list(other.ops.keys()):
             return False
         for k in self.ops.keys():
             if not self.ops[k].is_equal(other.ops[k]):
